@@ -546,7 +546,7 @@ func runDocs(c *hx.Ctx, idx int) {
 }
 
 func Run(c *hx.Ctx) {
-	c.Rep.Rule = "parser sessions (1-4 operator programs, earlier ones ending mid-operand, plus failing raw inputs) compared with the parse alone; font dictionaries (1-5 names incl. aliasing pairs F and /F) registered 24 times each; 2-6 documents of the seven formats extracted alone, repeatedly, after other and failing extractions, and on 4-16 goroutines at once under the race detector, comparing digests of Text/ToMarkdown/Chunks().ToJSONL()/ToCSV(); 2-5 page PDFs whose pages share one resources dictionary (inherited from a /Pages node or one indirect object) and draw through Form XObjects whose own resources rebind the shared XObject/font names, each page extracted alone on a fresh reader, after 4-9 other page extractions on one caller-owned reader, and inside Open(f).Text(); trees of up to 16 Extractors derived from one base (file name or caller-owned reader) by Pages/PageRange/layout switches, families of siblings derived before any runs, run in arbitrary order, repeatedly and from 3-6 goroutines, each compared with a fresh linear chain of the same calls run alone; 3-8 goroutines each extracting 1-3 documents of their own that the process has not seen before (web pages and EPUB chapters with free-form class/id/role attributes, the seven formats, dense PDF pages) through tabula.Open and the htmldoc/epubdoc readers in every navigation-exclusion mode, the first such case being the first thing the process does, compared with the same documents alone afterwards and with the race detector's log; PDF pages on the thresholds of the line-grouping heuristics (scaling CTMs 1..0.1, baseline pitch 15%-150% of the glyph height, up to 42 distinct baselines, 1-3 columns with coinciding or interleaved baselines drawn column by column, bottom-up, row by row or shuffled, Tm/Td/BT-per-line positioning) with 15 public renderings taken 8 times each; map-order cases (each real function called 4-16 times, all results required equal, and the inputs sent to the model with one arbitrary iteration order): line tolerance on 0-30 fragments with positions and heights in multiples of 0.5 (compressed, threshold, scattered, few baselines), the three layout votes with tied candidates, CSV columns of 0-5 chunks, mergeResources of random page/form resources, /Differences with unknown glyph names, ordered lists with items on levels 0-5, EPUB manifests with 0-3 navigation documents / NCX files, pages with 0-6 XObjects (images, forms, broken images), 3-6 pages with 1-4 repeating header texts of equal or different confidence, one page through parse + fonts + tolerance + votes under a forward or a backward runtime; process cases: 1-3 documents (PDFs of 2-6 pages with messy pages, a broken PDF, the six other formats; Open and FromReader bases), per family 3-9 calls (configuration methods incl. sibling page selections from a parent with spare slice capacity, inverted ranges, out-of-range pages; Text/Fragments/Document, PageCount, Close) interleaved at random, every terminal answer also compared with the same chain built afresh and with the family run on a goroutine of its own; look-up histories with ClearCache on one reader; PDF 1.5 files of 2-4 pages written in 2-4 revisions (cross-reference streams chained by /Prev, fonts / page and resource dictionaries / integers on their own or inside 1-2 object streams per revision, later revisions replacing, freeing and adding objects so that superseded versions stay behind in object streams beside current ones): GetObject histories of 3-12 look-ups with ClearCache on one reader compared with a reader per look-up and with the last version written, IsCharacterLevel/IsMultiColumn/PageCount before the terminal call on one Extractor, 3-6 page selections on one caller-owned reader and the whole document, each compared with the page alone on a fresh Open; PDFs of 2-5 pages in a page tree of 1-2 levels that open but carry one fault behind the catalog (four in five: a kid listed twice / shared between parents / leading back to an ancestor / an integer, array, null or missing object, a node without /Type or of another type, /Kids missing or not an array, /Count not an integer, a catalog without /Pages, a page whose contents are an integer, missing, not inflatable or end mid-operand, whose resources or font are an integer): 2-5 calls (PageCount, IsCharacterLevel, IsMultiColumn, Text, Fragments, ToMarkdown) on one Extractor with or without a page selection and 3-6 steps on one caller-owned reader (FromReader extractions and counts, Reader.PageCount, GetPage+ExtractText), each answer (value, error or not) compared with the same call alone on a fresh Open / reader; sectioned web pages and EPUB chapters (optional preface, 1-4 sections h1-h4 with 0-3 paragraphs, lists, tables, quotations), free-form web pages and the seven formats: 4-9 reads (exports in five shapes, Markdown renderings with four option sets, filters followed by a rendering or export, per-chunk renderings, statistics; exact repetitions) on ONE collection returned by Chunks(), each compared with the same read on a fresh collection, repeated reads with each other, and encoding/json of the chunks before and after every read; 3-6 reads (chunking with two configurations, text, outline, statistics, reading order) on one Document(); ResolveDeep on 2-5 mutually referring dictionaries; non-trivial = session with at least one operation / every font and document case / a page list processed / at least two candidates"
+	c.Rep.Rule = "parser sessions (1-4 operator programs, earlier ones ending mid-operand, plus failing raw inputs) compared with the parse alone; font dictionaries (1-5 names incl. aliasing pairs F and /F) registered 24 times each; 2-6 documents of the seven formats extracted alone, repeatedly, after other and failing extractions, and on 4-16 goroutines at once under the race detector, comparing digests of Text/ToMarkdown/Chunks().ToJSONL()/ToCSV(); 2-5 page PDFs whose pages share one resources dictionary (inherited from a /Pages node or one indirect object) and draw through Form XObjects whose own resources rebind the shared XObject/font names, each page extracted alone on a fresh reader, after 4-9 other page extractions on one caller-owned reader, and inside Open(f).Text(); trees of up to 16 Extractors derived from one base (file name or caller-owned reader) by Pages/PageRange/layout switches, families of siblings derived before any runs, run in arbitrary order, repeatedly and from 3-6 goroutines, each compared with a fresh linear chain of the same calls run alone; 3-8 goroutines each extracting 1-3 documents of their own that the process has not seen before (web pages and EPUB chapters with free-form class/id/role attributes, the seven formats, dense PDF pages) through tabula.Open and the htmldoc/epubdoc readers in every navigation-exclusion mode, the first such case being the first thing the process does, compared with the same documents alone afterwards and with the race detector's log; PDF pages on the thresholds of the line-grouping heuristics (scaling CTMs 1..0.1, baseline pitch 15%-150% of the glyph height, up to 42 distinct baselines, 1-3 columns with coinciding or interleaved baselines drawn column by column, bottom-up, row by row or shuffled, Tm/Td/BT-per-line positioning) with 15 public renderings taken 8 times each; map-order cases (each real function called 4-16 times, all results required equal, and the inputs sent to the model with one arbitrary iteration order): line tolerance on 0-30 fragments with positions and heights in multiples of 0.5 (compressed, threshold, scattered, few baselines), the three layout votes with tied candidates, CSV columns of 0-5 chunks, mergeResources of random page/form resources, /Differences with unknown glyph names, ordered lists with items on levels 0-5, EPUB manifests with 0-3 navigation documents / NCX files, pages with 0-6 XObjects (images, forms, broken images), 3-6 pages with 1-4 repeating header texts of equal or different confidence, one page through parse + fonts + tolerance + votes under a forward or a backward runtime; process cases: 1-3 documents (PDFs of 2-6 pages with messy pages, a broken PDF, the six other formats; Open and FromReader bases), per family 3-9 calls (configuration methods incl. sibling page selections from a parent with spare slice capacity, inverted ranges, out-of-range pages; Text/Fragments/Document, PageCount, Close) interleaved at random, every terminal answer also compared with the same chain built afresh and with the family run on a goroutine of its own; look-up histories with ClearCache on one reader; PDF 1.5 files of 2-4 pages written in 2-4 revisions (cross-reference streams chained by /Prev, fonts / page and resource dictionaries / integers on their own or inside 1-2 object streams per revision, later revisions replacing, freeing and adding objects so that superseded versions stay behind in object streams beside current ones): GetObject histories of 3-12 look-ups with ClearCache on one reader compared with a reader per look-up and with the last version written, IsCharacterLevel/IsMultiColumn/PageCount before the terminal call on one Extractor, 3-6 page selections on one caller-owned reader and the whole document, each compared with the page alone on a fresh Open, the content and object streams of these files plain or Flate-compressed with the absence of a predictor spelled in nine ways (no /DecodeParms, /Predictor 1 alone or with /Columns etc., an empty dictionary, null, one-element arrays), and between the look-ups 0-2 decodes of a content stream fetched through the same reader or whole extractions of the file through another reader; PDFs of 3-7 pages with 1-4 running header/footer lines (constant or around the page number, from page one or two) over 2-5 body lines of their own, drawn top-down, body first or shuffled: 3-8 extractions on one caller-owned reader (no option, ExcludeHeaders/Footers/HeadersAndFooters, JoinParagraphs, page selections; Text/ToMarkdown/Fragments; the Extractor of the step before run again), each compared with the same chain alone on a fresh Open, repeats with each other, and plain Text() with every line the harness wrote on the selected pages; PDFs of 2-5 pages in a page tree of 1-2 levels that open but carry one fault behind the catalog (four in five: a kid listed twice / shared between parents / leading back to an ancestor / an integer, array, null or missing object, a node without /Type or of another type, /Kids missing or not an array, /Count not an integer, a catalog without /Pages, a page whose contents are an integer, missing, not inflatable or end mid-operand, whose resources or font are an integer): 2-5 calls (PageCount, IsCharacterLevel, IsMultiColumn, Text, Fragments, ToMarkdown) on one Extractor with or without a page selection and 3-6 steps on one caller-owned reader (FromReader extractions and counts, Reader.PageCount, GetPage+ExtractText), each answer (value, error or not) compared with the same call alone on a fresh Open / reader; sectioned web pages and EPUB chapters (optional preface, 1-4 sections h1-h4 with 0-3 paragraphs, lists, tables, quotations), free-form web pages and the seven formats: 4-9 reads (exports in five shapes, Markdown renderings with four option sets, filters followed by a rendering or export, per-chunk renderings, statistics; exact repetitions) on ONE collection returned by Chunks(), each compared with the same read on a fresh collection, repeated reads with each other, and encoding/json of the chunks before and after every read; 3-6 reads (chunking with two configurations, text, outline, statistics, reading order) on one Document(); ResolveDeep on 2-5 mutually referring dictionaries; non-trivial = session with at least one operation / every font and document case / a page list processed / at least two candidates"
 	runFresh(c, 0, true) // cold start: the very first extractions of the process run concurrently (no PDF: see next line)
 	runMetricsHistory(c) // first: nothing may have touched the font tables yet
 	for i := 1; i < c.N(12, 200); i++ {
@@ -582,6 +582,9 @@ func Run(c *hx.Ctx) {
 	for i := 0; i < c.N(80, 2000); i++ {
 		runLazy(c, i)
 	}
+	for i := 0; i < c.N(60, 1200); i++ {
+		runRunning(c, i)
+	}
 	for i := 0; i < c.N(80, 2000); i++ {
 		runCollection(c, i)
 	}
@@ -602,6 +605,8 @@ func Replay(c *hx.Ctx, m map[string]interface{}) {
 			runRevisions(c, int(idx))
 		case "lazy":
 			runLazy(c, int(idx))
+		case "running":
+			runRunning(c, int(idx))
 		case "collection":
 			runCollection(c, int(idx))
 		case "fresh":
